@@ -401,8 +401,25 @@ func ruleMaturityAtoms(c *report.Ctx, only map[string]bool) {
 			continue
 		}
 		var stores []ssa.Instruction
-		for _, g := range withLiterals(sab) { // the scan's body may live in a callback literal
+		viaPtr := map[ssa.Instruction][]an.Atom{} // a store through a pointer chosen on several paths: what held where this field was chosen
+		for _, g := range withLiterals(sab) {     // the scan's body may live in a callback literal
 			stores = append(stores, fieldStores(g, bd, field)...)
+			an.Instrs(g, func(in ssa.Instruction) {
+				st, ok := in.(*ssa.Store)
+				if !ok {
+					return
+				}
+				ph, isPhi := st.Addr.(*ssa.Phi)
+				if !isPhi {
+					return
+				}
+				for i, e := range ph.Edges {
+					if addrRootsAtField(e, bd, field) && i < len(ph.Block().Preds) {
+						stores = append(stores, in)
+						viaPtr[in] = append(append([]an.Atom{}, p.GuardsOnEdge(ph.Block().Preds[i], ph.Block())...), p.GuardsOf(in)...)
+					}
+				}
+			})
 		}
 		// ignore stores in the initialisation loop (composite literal of a fresh allocation)
 		var real []ssa.Instruction
@@ -421,6 +438,9 @@ func ruleMaturityAtoms(c *report.Ctx, only map[string]bool) {
 		}
 		for _, s := range real {
 			gs := p.GuardsOf(s)
+			if on, ok := viaPtr[s]; ok {
+				gs = on
+			}
 			texts := an.AtomTexts(gs)
 			missing := []string{}
 			has := func(pred func(an.Atom) bool) bool { return an.AnyAtom(gs, pred) }
@@ -446,11 +466,35 @@ func ruleMaturityAtoms(c *report.Ctx, only map[string]bool) {
 				if !has(func(a an.Atom) bool { return an.BoolCall(a, nil, "CheckPoolOutPointSpend", false) }) {
 					missing = append(missing, "!txpool.CheckPoolOutPointSpend")
 				}
+				// the class is asked through credit.isBinding()/isStaking() or read off credit.flags.Class directly
+				classIs := func(a an.Atom, name string, truth bool) bool {
+					o := p.Obj(pkgTxmgr, name)
+					if o == nil || a.X == nil || a.Y == nil || !strings.HasSuffix(p.Desc(a.X), "flags.Class") {
+						return false
+					}
+					k := foldConst(a.Y, 0)
+					if k == nil {
+						return false
+					}
+					same := k.ExactString() == constString(o)
+					switch {
+					case truth:
+						return a.Op == token.EQL && same
+					case a.Op == token.NEQ:
+						return same
+					default:
+						return a.Op == token.EQL && !same // it is another class
+					}
+				}
 				isB := func(truth bool) func(an.Atom) bool {
-					return func(a an.Atom) bool { return isBindingFn != nil && an.BoolCall(a, isBindingFn, "", truth) }
+					return func(a an.Atom) bool {
+						return (isBindingFn != nil && an.BoolCall(a, isBindingFn, "", truth)) || classIs(a, "ClassBindingUtxo", truth)
+					}
 				}
 				isS := func(truth bool) func(an.Atom) bool {
-					return func(a an.Atom) bool { return isStakingFn != nil && an.BoolCall(a, isStakingFn, "", truth) }
+					return func(a an.Atom) bool {
+						return (isStakingFn != nil && an.BoolCall(a, isStakingFn, "", truth)) || classIs(a, "ClassStakingUtxo", truth)
+					}
 				}
 				switch field {
 				case "Spendable":
